@@ -342,7 +342,12 @@ class Blank(ExcelType):
     def _sort_key(self, other):
         if isinstance(other, Blank):
             return (0, 0)
-        return other.__Blank__()._sort_key(self)
+        blank = other.__Blank__()
+        if blank is None:
+            # A date has no blank equivalent; it compares with a blank like
+            # its serial number does, i.e. with the number 0.
+            blank = Number(0)
+        return blank._sort_key(self)
 
     def __and__(self, other):
         if isinstance(other, self.native_types + (Blank,)):
